@@ -156,6 +156,22 @@ Theorem finished_implies_resets_thm : forall s, xreach s -> s_finished (n_send s
 Proof. exact x_finished_implies. Qed.
 Print Assumptions finished_implies_resets_thm.
 
+(* liveness after reset(): from every reachable state in which reset() was called, three steps (emit RESET_STREAM,
+   deliver it, acknowledge it) make the sender is_finished and the receive half finished; they report exactly one
+   StreamReset unless the receive half had finished before.  While reset() has not been called every reachable state
+   is a data-step state, so the liveness theorems above apply to it. *)
+Theorem reset_completes_thm : forall s, xreach s -> s_reset (n_send s) <> None ->
+  exists s', run_sched s (reset_round s) = Some s' /\
+    s_finished (n_send s') = true /\ n_racked s' = true /\ n_rreset s' = true /\ r_finished (n_recv s') = true /\
+    n_resets s' = n_resets s ++ [s_highest (n_send s)] /\
+    sched_events s (reset_round s) = (if r_finished (n_recv s) then [] else [RReset]).
+Proof. exact reset_completes. Qed.
+Print Assumptions reset_completes_thm.
+
+Theorem xreach_noreset_nreach_thm : forall s, xreach s -> s_reset (n_send s) = None -> nreach s.
+Proof. exact xreach_noreset_nreach. Qed.
+Print Assumptions xreach_noreset_nreach_thm.
+
 (* after the receiver accepted a reset nothing more is reported, whatever step follows *)
 Theorem nothing_after_reset_thm : forall s op o s', xreach s -> n_rreset s = true -> net_step s op = Some (o, s') ->
   n_dbytes s' = n_dbytes s /\ n_ends s' = n_ends s /\ n_rreset s' = true /\ queued s op s' = [].
